@@ -80,6 +80,12 @@ def cases(tier, seed):
                                 c2 = _cfg(m, bc, g, n, rank, dim, kd, xg, dt)
                                 c2["regrid"] = 1
                                 out.append(c2)
+                            if rank <= 3 and xg == 0 and dt == "float64" and g == "uniform" and n in (4, 7):
+                                # object history: the same SQuad object has been used along OTHER dims before
+                                for prior in ("cumsum", "integrate"):
+                                    c3 = _cfg(m, bc, g, n, rank, dim, kd, xg, dt)
+                                    c3["prior"] = prior
+                                    out.append(c3)
                             if rank >= 2 and xg == 0 and dt == "float64" and g == "uniform" and n in (3, 5, 6):
                                 c1 = _cfg(m, bc, g, n, rank, dim, kd, xg, dt)
                                 c1["ones"] = 1
@@ -230,6 +236,16 @@ def run_case(cfg):
         return {"viol": viol, "obs": {"viol": [v["failure"][:60] for v in viol]}, "trivial": True, "n": nexec,
                 "status": "raised"}
     sq = o.value
+    if cfg.get("prior"):
+        # earlier calls on the same object along other dimensions (first, middle) of tensors of other ranks:
+        # nothing of them may survive into the judged calls
+        for (shp, d0) in (((n, 3), 0), ((2, n, 3), 1), ((2, n, 3), -2), ((n,), 0)):
+            yp = torch.ones(shp, dtype=dtype)
+            if cfg["prior"] == "cumsum":
+                call(sq.cumsum, yp, dim=d0)
+            else:
+                call(sq.integrate, yp, dim=d0, keepdim=(d0 == 1))
+            nexec += 1
 
     def layout(block):
         """block: (S, m) tensor -> y of shape other with the sample axis inserted at `axis`"""
